@@ -9,7 +9,7 @@ from . import check_coord as CC
 
 MODULES = {
     "C01": ["NSG.Properties.C01", "NSG.Properties.C01Barrier", "NSG.Properties.GenC01", "NSG.Properties.GenAtomic"],
-    "C04": ["NSG.Properties.C04"],
+    "C04": ["NSG.Properties.C04", "NSG.Properties.C04History"],
     "C05": ["NSG.Properties.C05"],
     "C06": ["NSG.Properties.C06", "NSG.Properties.C01Barrier", "NSG.Properties.GenAtomic"],
     "C07": ["NSG.Properties.C07", "NSG.Properties.C01Barrier", "NSG.Properties.GenAtomic"],
@@ -26,7 +26,7 @@ PROFILES = {
     "C07": {"burst": 0.25, "bad": 0.02, "leave": 0.08, "early_reset": 0.10},
     "C09": {"burst": 0.25, "bad": 0.25, "leave": 0.03, "out_of_order": 0.3},
     "C10": {"burst": 0.25, "bad": 0.03, "leave": 0.20},
-    "C16": {"burst": 0.25, "bad": 0.04, "leave": 0.04},
+    "C16": {"burst": 0.25, "bad": 0.04, "leave": 0.04, "early_reset": 0.2},
     "C18": {"burst": 0.25, "bad": 0.03, "leave": 0.20, "extra_connect": 0.15},
 }
 NONTRIVIAL = {
@@ -87,7 +87,7 @@ def main(prop, tier):
            "events_by_kind": bk, "parked_by_barrier": stats.get("parked", {}), "file_records_compared": stats.get("file_records", 0), "goal_check_cases": stats.get("goal_cases", 0), "goal_check_true": stats.get("goal_true", 0),
            "out_of_scope_disagreements": other, "proof_failures": V.proof_failures}
     write_evidence(prop, tier, "proof", cov, T.s(), nviol,
-                   ["one read = one client message (TCP coalescing not modelled)", "each connection has a fresh peer address",
+                   ["one read = one client message (TCP coalescing not modelled)", "a peer address is reused only after its earlier connection is closed",
                     "an EOF/reset that arrives while the handler awaits its reply is noticed after the reply (StreamReader semantics)",
                     "valid task configuration (every listed host exists in the scenario)"])
     return code
